@@ -3,14 +3,13 @@
 // C26 A replica is fused exactly when recent connection errors reach the threshold.
 //
 // Sub-checks:
-//   window   backend.NewSlidingWindow / Trigger against a reference count of the
-//            events in (now-W, now] (exported API only, timestamps are inputs).
-//   errkind  Slice.TryFuse: only connection-type errors are recorded, a disabled
-//            or absent breaker never fires. The wall clock that TryFuse reads is
-//            made irrelevant by a one-hour window (see the Rule text).
-//   TODO(C26-tryfuse-clock): TryFuse with windows of 1-8 s and drawn clock
-//            advances needs the injectable backend clock (build tag verif) that
-//            is being added to /repo; see TestC26TryFuseClock below.
+//
+//	window   backend.NewSlidingWindow / Trigger against a reference count of the
+//	         events in (now-W, now] (exported API only, timestamps are inputs).
+//	tryfuse  Slice.TryFuse on a NodeInfo under the injectable backend clock
+//	         (backend.VerifSetClock, build tag verif): only connection-type errors
+//	         are recorded, the node goes down exactly when the reference window
+//	         count reaches the threshold, a disabled or absent breaker never fires.
 package c26
 
 import (
@@ -19,6 +18,7 @@ import (
 	"fmt"
 	"io"
 	"testing"
+	"time"
 
 	"github.com/XiaoMi/Gaea/backend"
 	"github.com/XiaoMi/Gaea/log"
@@ -177,17 +177,23 @@ func checkWin(c winCase) (o pbt.Outcome) {
 
 func TestC26Window(t *testing.T) {
 	pbt.Run(t, pbt.Spec{ID: "C26", Sub: "window", Quick: 20000, Thorough: 200000,
-		Rule: "window 1-8 (10%: 9-70; 10%: disabled by window/threshold <= 0), threshold 1-8; 1-60 events with non-decreasing unix-second timestamps starting near 0, near 1.7e9, next to a multiple of the window or anywhere below 2^40; steps 0 (same second), 1, W-2..W+1, uniform in [0,2W+1], or long gaps; reference = number of recorded events in (now-W, now] >= threshold; non-trivial = enabled breaker, >= 3 events and at least one event had left the window when a later one was judged",
+		Rule:  "window 1-8 (10%: 9-70; 10%: disabled by window/threshold <= 0), threshold 1-8; 1-60 events with non-decreasing unix-second timestamps starting near 0, near 1.7e9, next to a multiple of the window or anywhere below 2^40; steps 0 (same second), 1, W-2..W+1, uniform in [0,2W+1], or long gaps; reference = number of recorded events in (now-W, now] >= threshold; non-trivial = enabled breaker, >= 3 events and at least one event had left the window when a later one was judged",
 		Floor: 0.5}, genWin, checkWin)
 }
 
-// ---- Slice.TryFuse: which errors count ----
+// ---- Slice.TryFuse under the injectable clock ----
 
-type kindCase struct {
-	Threshold int64 `json:"threshold"`
-	Window    int64 `json:"window"`   // 3600 (enabled) or <= 0 (disabled)
-	Recovery  int   `json:"recovery"` // 0 hard cool-down, 1 gradual, 2 no recovery strategy installed, 3 no fuse strategy installed
-	Ops       []int `json:"ops"`      // index into errKinds, or -1 = the prober marks the node up again
+type fuseStep struct {
+	Delta int64 `json:"d"`  // clock advance (seconds, >= 0) before the operation
+	Op    int   `json:"op"` // index into errKinds = TryFuse with that error; -1 = the prober marks the node up again
+}
+
+type fuseCase struct {
+	Window    int64      `json:"window"`
+	Threshold int64      `json:"threshold"`
+	Recovery  int        `json:"recovery"` // 0 hard cool-down, 1 gradual, 2 no recovery strategy installed, 3 no fuse strategy installed
+	Base      int64      `json:"base"`
+	Steps     []fuseStep `json:"steps"`
 }
 
 type errKind struct {
@@ -196,6 +202,10 @@ type errKind struct {
 	conn bool
 }
 
+// Connection-type errors are the values of mysql.ConnTypeError that the dial /
+// handshake path (backend/direct_connection.go) and the resource pool
+// (util.ErrTimeout, create-resource failure) return from ConnectionPool.Get;
+// everything else Get can return is "another error".
 var errKinds = []errKind{
 	{"nil", nil, false},
 	{"conn_dial", mysql.NewConnTypeError("127.0.0.1:3306", "failed to dial"), true},
@@ -208,36 +218,45 @@ var errKinds = []errKind{
 	{"eof", io.EOF, false},
 }
 
-func genKind(t *rapid.T) kindCase {
-	c := kindCase{Threshold: int64(rapid.IntRange(1, 8).Draw(t, "m")), Window: 3600}
-	switch rapid.IntRange(0, 9).Draw(t, "cfg") {
-	case 0:
-		c.Threshold = int64(rapid.SampledFrom([]int{0, -1}).Draw(t, "m0"))
-	case 1:
-		c.Window = int64(rapid.SampledFrom([]int{0, -3}).Draw(t, "w0"))
+func genFuse(t *rapid.T) fuseCase {
+	w := genWin(t) // same configuration and timestamp-step distribution as the window level
+	c := fuseCase{Window: w.Window, Threshold: w.Threshold, Base: w.Base}
+	if c.Base == 0 {
+		c.Base = 1
 	}
-	c.Recovery = rapid.SampledFrom([]int{0, 0, 0, 1, 1, 1, 2, 3}).Draw(t, "rec")
-	n := rapid.IntRange(1, 40).Draw(t, "n")
-	connBias := rapid.IntRange(2, 7).Draw(t, "cb")
-	for i := 0; i < n; i++ {
+	c.Recovery = rapid.SampledFrom([]int{0, 0, 0, 0, 1, 1, 1, 1, 2, 3}).Draw(t, "rec")
+	connBias := rapid.IntRange(3, 8).Draw(t, "cb")
+	for _, d := range w.Deltas {
+		st := fuseStep{Delta: d}
 		k := rapid.IntRange(0, 9).Draw(t, "k")
 		switch {
 		case k < connBias:
-			c.Ops = append(c.Ops, rapid.IntRange(1, 2).Draw(t, "ck"))
+			st.Op = rapid.IntRange(1, 2).Draw(t, "ck")
 		case k == 9:
-			c.Ops = append(c.Ops, -1)
+			st.Op = -1
 		default:
-			c.Ops = append(c.Ops, rapid.SampledFrom([]int{0, 3, 4, 5, 6, 7, 8}).Draw(t, "ok"))
+			st.Op = rapid.SampledFrom([]int{0, 3, 4, 5, 6, 7, 8}).Draw(t, "ok")
 		}
+		c.Steps = append(c.Steps, st)
 	}
 	return c
 }
 
-func checkKind(c kindCase) (o pbt.Outcome) {
-	if c.Window > 0 && c.Window < 3600 {
-		o.Skip = "window shorter than an hour would make the result depend on the wall clock"
+func checkFuse(c fuseCase) (o pbt.Outcome) {
+	if c.Base < 1 || c.Base > 1<<41 || len(c.Steps) > 5000 {
+		o.Skip = "timestamp outside unix-seconds range"
 		return
 	}
+	for _, st := range c.Steps {
+		if st.Delta < 0 || st.Delta > 1<<30 || st.Op < -1 || st.Op >= len(errKinds) {
+			o.Skip = "decreasing or absurd timestamp step, or unknown operation"
+			return
+		}
+	}
+	now := c.Base
+	backend.VerifSetClock(func() time.Time { return time.Unix(now, 0) })
+	defer backend.VerifSetClock(nil)
+
 	node := &backend.NodeInfo{Address: "127.0.0.1:3307", Status: backend.StatusUp, ConnPool: fakepool.New("127.0.0.1:3307", nil)}
 	switch c.Recovery {
 	case 0:
@@ -255,39 +274,49 @@ func checkKind(c kindCase) (o pbt.Outcome) {
 		node.RecoveryStrategy = backend.NewHardCoolDown(10)
 		o.Labels = append(o.Labels, "no_fuse_strategy")
 	}
-	// Fusing is configured per node through InitFuseRecoveryPolicy, which always
-	// installs both strategies; with either missing TryFuse is documented to do nothing.
+	// Fusing is switched on per node by InitFuseRecoveryPolicy, which installs both
+	// strategies; with either missing the breaker is off for that node.
 	enabled := c.Recovery <= 1 && c.Window > 0 && c.Threshold > 0
 	if !enabled {
 		o.Labels = append(o.Labels, "breaker_off")
 	}
 	s := &backend.Slice{Namespace: "ns"}
-	connErrs := int64(0)
+	var connTimes []int64 // reference: timestamps of the recorded connection errors
 	down := false
-	sawOtherAfterPartial, fusedCnt := false, 0
+	fusedCnt, expired, otherBetween, connSeen := 0, false, false, 0
 	if p := pbt.Catch(func() {
-		for i, op := range c.Ops {
-			if op == -1 || op >= len(errKinds) || op < -1 {
+		for i, st := range c.Steps {
+			now += st.Delta
+			if st.Op == -1 {
 				node.SetStatusUp()
 				down = false
 				continue
 			}
-			k := errKinds[op]
+			k := errKinds[st.Op]
 			s.TryFuse(node, k.err)
+			cnt := int64(0)
 			if k.conn {
-				connErrs++
-				if enabled && connErrs >= c.Threshold {
+				connSeen++
+				connTimes = append(connTimes, now)
+				for _, ts := range connTimes {
+					if ts > now-c.Window {
+						cnt++
+					} else {
+						expired = true
+					}
+				}
+				if enabled && cnt >= c.Threshold {
 					if !down {
 						fusedCnt++
 					}
 					down = true
 				}
-			} else if connErrs > 0 && connErrs < c.Threshold {
-				sawOtherAfterPartial = true
+			} else if len(connTimes) > 0 {
+				otherBetween = true
 			}
 			if got := node.IsStatusDown(); got != down {
-				o.Violation = fmt.Sprintf("after op %d (TryFuse with %s error; %d connection errors so far, threshold %d, breaker enabled=%v): node down=%v want %v",
-					i, k.name, connErrs, c.Threshold, enabled, got, down)
+				o.Violation = fmt.Sprintf("step %d at t=%d: TryFuse with %s error (window %d, threshold %d, breaker enabled=%v, %d connection errors in (%d,%d]): node down=%v want %v",
+					i, now, k.name, c.Window, c.Threshold, enabled, cnt, now-c.Window, now, got, down)
 				return
 			}
 		}
@@ -301,26 +330,21 @@ func checkKind(c kindCase) (o pbt.Outcome) {
 	if fusedCnt > 1 {
 		o.Labels = append(o.Labels, "fused_again_after_recovery")
 	}
-	if sawOtherAfterPartial {
-		o.Labels = append(o.Labels, "other_error_between_conn_errors")
+	if expired {
+		o.Labels = append(o.Labels, "conn_errors_expired")
 	}
-	o.NonTrivial = (enabled && fusedCnt > 0 && c.Threshold >= 2) || (!enabled && connErrs >= 1)
+	if otherBetween {
+		o.Labels = append(o.Labels, "other_error_after_conn_error")
+	}
+	if enabled && fusedCnt == 0 && connSeen >= int(c.Threshold) {
+		o.Labels = append(o.Labels, "threshold_many_errors_but_spread_out")
+	}
+	o.NonTrivial = (enabled && connSeen >= 2 && (expired || fusedCnt > 0)) || (!enabled && connSeen >= 1)
 	return
 }
 
-func TestC26ErrKind(t *testing.T) {
-	pbt.Run(t, pbt.Spec{ID: "C26", Sub: "errkind", Quick: 6000, Thorough: 60000,
-		Rule: "a NodeInfo with SlidingWindow(3600 s, threshold 1-8) (20%: disabled by parameter; 25%: one of the two strategies absent) and hard or gradual recovery; 1-40 TryFuse calls with nil, mysql.ConnTypeError, plain, *SQLError, pool-closed, context and EOF errors, interleaved with the prober setting the node up; the one-hour window makes every event of a case lie inside the window whatever the wall clock reads, so the node must be down exactly from the threshold-th connection error on; non-trivial = breaker fired with threshold >= 2, or a disabled breaker saw a connection error",
-		Floor: 0.4}, genKind, checkKind)
-}
-
-// TODO(C26-tryfuse-clock): the time-dependent half of the TryFuse level (windows of
-// 1-8 s, drawn clock advances between TryFuse calls, expiry of old connection
-// errors) needs the injectable backend clock that is being added to /repo under
-// build tag `verif` (DESIGN.md section 5, shared with C27). Once it exists: reuse
-// genWin's timestamp histories, set the hook clock to each timestamp, call
-// Slice.TryFuse with a drawn error kind and compare node.IsStatusDown() with the
-// same reference count as checkWin restricted to connection-type errors.
-func TestC26TryFuseClock(t *testing.T) {
-	t.Skip("TODO(C26-tryfuse-clock): waits for the verif clock hook in /repo/backend")
+func TestC26TryFuse(t *testing.T) {
+	pbt.Run(t, pbt.Spec{ID: "C26", Sub: "tryfuse", Quick: 10000, Thorough: 100000,
+		Rule:  "a NodeInfo with SlidingWindow(window, threshold) as in the window sub-check (20%: one of the two strategies absent) and hard or gradual recovery; the backend clock hook is set to a drawn non-decreasing timestamp before every step; steps are Slice.TryFuse with nil, mysql.ConnTypeError (dial, pool timeout), plain, *SQLError, pool-closed, context-deadline and EOF errors, or the prober marking the node up; reference = the node is down from the first connection error at which the number of connection errors in (now-W, now] >= threshold until the prober marks it up, nothing else changes its status; non-trivial = enabled breaker with >= 2 connection errors of which one expired or one fused, or a switched-off breaker that saw a connection error",
+		Floor: 0.5}, genFuse, checkFuse)
 }
